@@ -6,6 +6,7 @@ import (
 	"encoding/json"
 	"errors"
 	"fmt"
+	"net/http"
 	"path/filepath"
 	"regexp"
 	"sort"
@@ -18,6 +19,7 @@ import (
 	"oras.land/oras-go/v2/content/file"
 	"oras.land/oras-go/v2/content/memory"
 	"oras.land/oras-go/v2/content/oci"
+	"oras.land/oras-go/v2/registry/remote"
 	"oras.land/oras-go/v2/zsim/simrt"
 )
 
@@ -43,6 +45,9 @@ type CopyParams struct {
 	NFaults     int            `json:"n_faults,omitempty"`
 	FaultPicks  []uint64       `json:"fault_picks,omitempty"`
 	Faults      []FaultSpec    `json:"faults,omitempty"` // explicit placement (resolved from picks on first run)
+	RegProfile  *RegProfile    `json:"reg_profile,omitempty"` // remote stores: capability profile of the simulated registries
+	MountFrom   bool           `json:"mount_from,omitempty"`  // remote destination: offer the sibling repository as mount source
+	MountPre    []int          `json:"mount_pre,omitempty"`   // blobs the sibling repository of the destination registry holds
 }
 
 type copyProp struct {
@@ -104,7 +109,7 @@ func closeDown(g *Graph, set map[int]bool) {
 
 func (p *copyProp) Gen(r *Rand, tier string, idx int) any {
 	cp := &CopyParams{}
-	kinds := []string{"memory", "memory", "oci", "file"}
+	kinds := []string{"memory", "memory", "oci", "file", "remote"}
 	cp.SrcKind, cp.DstKind = pick(r, kinds), pick(r, kinds)
 	maxN := 12
 	if r.Chance(0.2) {
@@ -120,13 +125,18 @@ func (p *copyProp) Gen(r *Rand, tier string, idx int) any {
 	}
 	if p.id == "C03" {
 		o.Referrers = true
-		cp.SrcKind = pick(r, []string{"memory", "oci", "ocireopen", "file"})
+		cp.SrcKind = pick(r, []string{"memory", "oci", "ocireopen", "file", "remote"})
 		if cp.SrcKind != "memory" {
 			o.NoTwins = true
 		}
 		if cp.SrcKind == "file" {
 			o.Titles = true
 		}
+	}
+	remote := cp.SrcKind == "remote" || cp.DstKind == "remote"
+	if remote {
+		o.NoTwins, o.OneDigest, o.NoForeign = true, true, false
+		cp.RegProfile = &RegProfile{ReferrersAPI: true, OCISubject: true, DigestHeader: true, Range: r.Bool(), MountOK: r.Bool(), Location: pick(r, []string{"relative", "absolute", "query"})}
 	}
 	cp.Graph = *GenGraph(r, o)
 	g := cp.Graph.Build()
@@ -150,6 +160,20 @@ func (p *copyProp) Gen(r *Rand, tier string, idx int) any {
 		cp.Concurrency = 0 // default
 	}
 	cp.SrcRef = pick(r, []string{"latest", "v1", "a/b:c"})
+	if remote {
+		cp.SrcRef = pick(r, []string{"latest", "v1"})
+		if !g.Nodes[cp.Root].IsManif && len(manifs) > 0 {
+			cp.Root = pick(r, manifs) // a registry tags manifests only
+		}
+		if cp.DstKind == "remote" && r.Chance(0.4) {
+			cp.MountFrom = true
+			for _, n := range g.Nodes {
+				if !n.IsManif && r.Chance(0.5) {
+					cp.MountPre = append(cp.MountPre, n.ID)
+				}
+			}
+		}
+	}
 	if r.Chance(0.5) {
 		cp.DstRef = pick(r, []string{"latest", "copy", "v2"})
 	}
@@ -167,6 +191,11 @@ func (p *copyProp) Gen(r *Rand, tier string, idx int) any {
 	case "C03":
 		cp.API = pick(r, []string{"ExtendedCopy", "ExtendedCopyGraph"})
 		cp.Root = r.Intn(len(g.Nodes))
+		if remote && !g.Nodes[cp.Root].IsManif {
+			if cp.SrcKind == "remote" || cp.DstKind == "remote" {
+				cp.API = "ExtendedCopyGraph" // a registry tags manifests only
+			}
+		}
 		if r.Chance(0.5) {
 			cp.Depth = r.Range(1, 4)
 		}
@@ -223,6 +252,15 @@ func (p *copyProp) Gen(r *Rand, tier string, idx int) any {
 			}
 		}
 		cp.MaxMeta = max + int64(r.Intn(3))*int64(r.Intn(50))
+	}
+	if remote && !g.Nodes[cp.Root].IsManif {
+		// a registry tags manifests only: a non-manifest root is copied by descriptor
+		switch cp.API {
+		case "Copy":
+			cp.API, cp.MapRoot = "CopyGraph", ""
+		case "ExtendedCopy":
+			cp.API = "ExtendedCopyGraph"
+		}
 	}
 	// pre-populated destination: link-closed subset
 	if p.id != "C03" && r.Chance(0.6) {
@@ -308,6 +346,7 @@ func (p *copyProp) Shrink(raw json.RawMessage) []json.RawMessage {
 		if c.LatencyMs != nil {
 			c.LatencyMs = nil
 		}
+		c.MountPre = nil
 		emit(c)
 	}
 	if len(cp.Pre) > 0 {
@@ -355,6 +394,7 @@ type builtStore struct {
 	target oras.GraphTarget
 	close  func()
 	dir    string
+	reg    *SimRegistry // remote stores
 }
 
 func makeStore(rc *RunCtx, kind, name string) (*builtStore, error) {
@@ -374,6 +414,20 @@ func makeStore(rc *RunCtx, kind, name string) (*builtStore, error) {
 			return nil, err
 		}
 		return &builtStore{kind: kind, target: s, close: func() { s.Close() }, dir: dir}, nil
+	case "remote":
+		prof := RegProfile{ReferrersAPI: true, OCISubject: true, DigestHeader: true, Location: "relative"}
+		if rc.regProfile != nil {
+			prof = *rc.regProfile
+		}
+		host := name + ".test"
+		reg := NewSimRegistry(host, prof)
+		reg.Known[simRepo], reg.Known[simOther] = true, true
+		repo, err := remote.NewRepository(host + "/" + simRepo)
+		if err != nil {
+			return nil, err
+		}
+		repo.Client = &http.Client{Transport: reg}
+		return &builtStore{kind: kind, target: repo, close: func() {}, reg: reg}, nil
 	}
 	return nil, fmt.Errorf("unknown store kind %q", kind)
 }
@@ -432,6 +486,7 @@ func expectedRoot(g *Graph, cp *CopyParams) (int, bool) {
 
 func setupStores(rc *RunCtx, g *Graph, cp *CopyParams) (*copyEnv, error) {
 	ctx := context.Background()
+	rc.regProfile = cp.RegProfile
 	src, err := makeStore(rc, cp.SrcKind, "src")
 	if err != nil {
 		return nil, err
@@ -447,8 +502,13 @@ func setupStores(rc *RunCtx, g *Graph, cp *CopyParams) (*copyEnv, error) {
 	if err := pushAll(ctx, src.target, g, all); err != nil {
 		return nil, err
 	}
-	if err := src.target.Tag(ctx, g.Nodes[cp.Root].Desc, cp.SrcRef); err != nil {
-		return nil, fmt.Errorf("setup tag: %w", err)
+	if cp.SrcKind != "remote" || g.Nodes[cp.Root].IsManif {
+		if err := src.target.Tag(ctx, g.Nodes[cp.Root].Desc, cp.SrcRef); err != nil {
+			return nil, fmt.Errorf("setup tag: %w", err)
+		}
+	}
+	if dst.reg != nil {
+		preloadRegistry(dst.reg, g, simOther, cp.MountPre)
 	}
 	if cp.SrcKind == "ocireopen" {
 		s, err := oci.New(src.dir)
@@ -475,8 +535,19 @@ func (env *copyEnv) exec(rc *RunCtx, faults []FaultSpec, checks func(m *Monitor)
 		mon.checks = checks(mon)
 	}
 	ex.mon = mon
-	src := &SimStore{Name: "src", Inner: env.src.target, M: mon, Gauge: true}
-	dst := &SimStore{Name: "dst", Inner: env.dst.target, M: mon, Gauge: true}
+	srcS := &SimStore{Name: "src", Inner: env.src.target, M: mon, Gauge: true}
+	dstS := &SimStore{Name: "dst", Inner: env.dst.target, M: mon, Gauge: true}
+	var src oras.ReadOnlyGraphTarget = srcS
+	var dst oras.Target = dstS
+	var srcStorage content.ReadOnlyStorage = StorageOnly{srcS}
+	var dstStorage content.Storage = StorageOnly{dstS}
+	if env.src.kind == "remote" {
+		src = &SimRemote{srcS}
+	}
+	if env.dst.kind == "remote" {
+		dr := &SimRemote{dstS}
+		dst, dstStorage = dr, dr // CopyGraph sees the Mounter too
+	}
 	main := func() {
 		ctx, cancel := context.WithCancel(context.Background())
 		defer cancel()
@@ -489,6 +560,17 @@ func (env *copyEnv) exec(rc *RunCtx, faults []FaultSpec, checks func(m *Monitor)
 			gopts.PostCopy = func(ctx context.Context, d ocispec.Descriptor) error { return mon.callback("PostCopy", g.Lookup(d)) }
 			gopts.OnCopySkipped = func(ctx context.Context, d ocispec.Descriptor) error {
 				return mon.callback("OnCopySkipped", g.Lookup(d))
+			}
+			gopts.OnMounted = func(ctx context.Context, d ocispec.Descriptor) error {
+				return mon.callback("OnMounted", g.Lookup(d))
+			}
+		}
+		if cp.MountFrom && env.dst.kind == "remote" {
+			gopts.MountFrom = func(ctx context.Context, d ocispec.Descriptor) ([]string, error) {
+				if err := mon.callback("MountFrom", g.Lookup(d)); err != nil {
+					return nil, err
+				}
+				return []string{simOther}, nil
 			}
 		}
 		rootDesc := g.Nodes[cp.Root].Desc
@@ -508,7 +590,7 @@ func (env *copyEnv) exec(rc *RunCtx, faults []FaultSpec, checks func(m *Monitor)
 			}
 			ex.desc, ex.err = oras.Copy(ctx, src, cp.SrcRef, dst, cp.DstRef, opts)
 		case "CopyGraph":
-			ex.err = oras.CopyGraph(ctx, StorageOnly{src}, StorageOnly{dst}, rootDesc, gopts)
+			ex.err = oras.CopyGraph(ctx, srcStorage, dstStorage, rootDesc, gopts)
 		case "ExtendedCopy", "ExtendedCopyGraph":
 			eo := oras.ExtendedCopyGraphOptions{CopyGraphOptions: gopts, Depth: cp.Depth}
 			if cp.FilterAT != "" {
@@ -524,7 +606,7 @@ func (env *copyEnv) exec(rc *RunCtx, faults []FaultSpec, checks func(m *Monitor)
 			if cp.API == "ExtendedCopy" {
 				ex.desc, ex.err = oras.ExtendedCopy(ctx, src, cp.SrcRef, dst, cp.DstRef, oras.ExtendedCopyOptions{ExtendedCopyGraphOptions: eo})
 			} else {
-				ex.err = oras.ExtendedCopyGraph(ctx, src, StorageOnly{dst}, rootDesc, eo)
+				ex.err = oras.ExtendedCopyGraph(ctx, src, dstStorage, rootDesc, eo)
 			}
 		}
 	}
@@ -589,13 +671,13 @@ func sameContent(a, b ocispec.Descriptor) bool {
 
 // ancestors computes the upward closure of start following predecessor edges
 // accepted by follow(p); dist receives shortest distances.
-func ancestors(g *Graph, start int, follow func(p int) bool) map[int]int {
+func ancestors(g *Graph, start int, subjectOnly bool, follow func(p int) bool) map[int]int {
 	dist := map[int]int{g.Canon(start): 0}
 	queue := []int{g.Canon(start)}
 	for len(queue) > 0 {
 		x := queue[0]
 		queue = queue[1:]
-		for _, p := range g.Preds(x, nil, false) {
+		for _, p := range g.Preds(x, nil, subjectOnly) {
 			if _, seen := dist[p]; seen || !follow(p) {
 				continue
 			}
@@ -665,8 +747,10 @@ func wantSets(env *copyEnv) (lower, upper map[int]bool, ok bool) {
 		}
 		return g.Reach(root), nil, true
 	}
-	defAnc := ancestors(g, cp.Root, func(p int) bool { d, _ := filterTruth(g, cp, p); return d })
-	mayAnc := ancestors(g, cp.Root, func(p int) bool { _, m := filterTruth(g, cp, p); return m })
+	// the source's predecessor relation: every parent for local stores, referrers (subject links) for a registry
+	so := cp.SrcKind == "remote"
+	defAnc := ancestors(g, cp.Root, so, func(p int) bool { d, _ := filterTruth(g, cp, p); return d })
+	mayAnc := ancestors(g, cp.Root, so, func(p int) bool { _, m := filterTruth(g, cp, p); return m })
 	if cp.Depth > 0 {
 		lower = g.Reach(cp.Root)
 		var within []int
@@ -1009,7 +1093,7 @@ func accountingOracle(env *copyEnv, ex *copyExec, info *RunInfo) *Verdict {
 	}
 	events := m.Events()
 	fetches, pushes := map[int]int{}, map[int]int{}
-	type cbs struct{ pre, post, skipped []int } // positions in the event list
+	type cbs struct{ pre, post, skipped, mounted []int } // positions in the event list
 	cb := map[int]*cbs{}
 	get := func(n int) *cbs {
 		if cb[n] == nil {
@@ -1038,6 +1122,8 @@ func accountingOracle(env *copyEnv, ex *copyExec, info *RunInfo) *Verdict {
 				get(n).post = append(get(n).post, i)
 			case "OnCopySkipped":
 				get(n).skipped = append(get(n).skipped, i)
+			case "OnMounted":
+				get(n).mounted = append(get(n).mounted, i)
 			}
 		}
 	}
@@ -1066,8 +1152,25 @@ func accountingOracle(env *copyEnv, ex *copyExec, info *RunInfo) *Verdict {
 		return violation("unexpected-error", "", "fault-free %s failed: %v", cp.API, ex.err)
 	}
 	// callback accounting
+	pre := map[int]bool{}
+	for _, i := range cp.Pre {
+		pre[g.Canon(i)] = true
+	}
 	for _, n := range sortedKeys(toSetB(pushedOK)) {
 		c := get(n)
+		if pre[n] {
+			// found already present: a reference-pushing destination re-sends the root
+			// to tag it; that is not a transfer
+			continue
+		}
+		if len(c.mounted) > 0 {
+			// mounted: exactly one OnMounted, neither PreCopy nor PostCopy
+			if len(c.mounted) != 1 || len(c.pre) != 0 || len(c.post) != 0 {
+				return violation("mount-callbacks", "", "node %d was mounted with %d OnMounted, %d PreCopy, %d PostCopy calls", n, len(c.mounted), len(c.pre), len(c.post))
+			}
+			info.Probes["mounted"]++
+			continue
+		}
 		if len(c.pre) != 1 {
 			return violation("precopy-count", "", "node %d was transferred with %d PreCopy calls", n, len(c.pre))
 		}
@@ -1099,6 +1202,9 @@ func accountingOracle(env *copyEnv, ex *copyExec, info *RunInfo) *Verdict {
 					}
 					if len(sc.skipped) > 0 && (term < 0 || sc.skipped[0] < term) {
 						term = sc.skipped[0]
+					}
+					if len(sc.mounted) > 0 && (term < 0 || sc.mounted[0] < term) {
+						term = sc.mounted[0]
 					}
 				}
 				if term < 0 {
